@@ -152,6 +152,11 @@ def run_tlc(module, cfg, *, workers=1, timeout=900, files=None, env=None, heap="
             idx = clean.find("Error:")
             res.error_text = clean[max(0, idx - 200): idx + 2500] if idx >= 0 else clean[-2500:]
             if not allow_violation or not res.violated:
+                try:      # the full output of the last failing TLC run, for diagnosis (overwritten each time)
+                    with open(os.path.join(tempfile.gettempdir(), "verif-last-tlc-failure.log"), "w") as fh:
+                        fh.write(p.stdout)
+                except OSError:
+                    pass
                 raise MachineryFailure("TLC failed on %s (rc=%s):\n%s" % (module, p.returncode, res.error_text))
         return res
     finally:
